@@ -9,6 +9,7 @@ import Driver.OpsFrame
 import Driver.OpsLoD
 import Driver.OpsObs
 import Driver.OpsFS
+import Driver.OpsBind
 
 open Lean DI DI.Codec
 
@@ -26,6 +27,9 @@ def dispatch (op : String) (a : Json) : Except String Json :=
   | some r => r
   | none =>
   match DI.Ops.fsOp op a with
+  | some r => r
+  | none =>
+  match DI.Ops.bindOp op a with
   | some r => r
   | none => .error s!"unknown op {op}"
 
